@@ -15,8 +15,8 @@ pub struct C15;
 
 fn n_cases(tier: Tier) -> u64 {
     match tier {
-        Tier::Quick => 1_500,
-        Tier::Thorough => 15_000,
+        Tier::Quick => 6_000,
+        Tier::Thorough => 150_000,
     }
 }
 
@@ -42,7 +42,9 @@ fn lsp_fail(e: LspError, what: &str, r: &mut CaseReport) {
     match e {
         LspError::Died(st, err) => {
             let site = crate::props::c04::panic_site(&err);
-            r.fail(Failure::new(format!("c15:server-died:{st}:{site}"), format!("oal-lsp died during {what}: {err}")));
+            // A Rust panic keeps the signature format of the other checks (same root causes, other door).
+            let sig = if site.contains(".rs:") { format!("panic:{site}") } else { format!("c15:server-died:{st}:{site}") };
+            r.fail(Failure::new(sig, format!("oal-lsp died ({st}) during {what}: {err}")));
         }
         LspError::Timeout => r.label("lsp-timeout-inconclusive"),
         LspError::Protocol(m) => r.fail(Failure::new("c15:protocol", format!("{what}: {m}"))),
@@ -125,6 +127,7 @@ pub fn check_history(h: &History, r: &mut CaseReport) {
             Op::Request { kind, doc, pos } => ask(&mut lsp, &ws, kind, doc, (pos[0], pos[1])).map(|_| ()),
         };
         if let Err(e) = res {
+            label_final_state(h, &open, r);
             return lsp_fail(e, &format!("operation #{i} {op:?}"), r);
         }
         if !lsp.alive() {
@@ -133,6 +136,7 @@ pub fn check_history(h: &History, r: &mut CaseReport) {
         }
     }
     if let Err(e) = lsp.barrier(&ws.uri(&h.main)) {
+        label_final_state(h, &open, r);
         return lsp_fail(e, "final barrier", r);
     }
     // The fresh server: same directory, the open documents with their final texts.
@@ -211,6 +215,20 @@ pub fn check_history(h: &History, r: &mut CaseReport) {
         r.label("final-state:rejected");
     } else {
         r.label("final-state:accepted");
+    }
+}
+
+/// Structural labels of the program the server currently sees (preconditions of known findings).
+fn label_final_state(h: &History, open: &BTreeMap<String, String>, r: &mut CaseReport) {
+    let mut files = h.files.clone();
+    for (d, t) in open {
+        files.insert(d.clone(), t.clone());
+    }
+    let sources = crate::oal::Sources { main: h.main.clone(), files };
+    if let Ok(Ok(mods)) = crate::engine::catch(|| crate::oal::load(&sources)) {
+        for l in crate::oal::structural_labels(&mods) {
+            r.label(l);
+        }
     }
 }
 
